@@ -18,7 +18,7 @@ from sim.env import Sim
 from sim.loop import SimLivelock
 
 ID = "C19"
-REAL = ["PVPowerFormula generator (+ fallback pairing on the real component graph)", "FallbackFormulaMetricFetcher",
+REAL = ["PVPowerFormula and BatteryPowerFormula generators (+ fallback pairing on the real component graph)", "FallbackFormulaMetricFetcher",
         "MetricFetcher._fetch_next / fetch_next_with_fallback / _synchronize_and_fetch_fallback",
         "ResampledFormulaBuilder", "FormulaEngine / FormulaEvaluator", "ChannelRegistry"]
 STUB = ["resampling actor (harness answers ComponentMetricRequests and feeds resampled channels)"]
@@ -28,7 +28,7 @@ RULE = ("one run = 1-3 PV meters with 1-2 inverters each (optionally one bare in
         "non-trivial = at least one primary failure; distinct = abstract digest of (fault kind, component) sequence")
 QUICK_RUNS = 4000
 THOROUGH_RUNS = 250_000
-EXPECT_PROBES = ["fallback_started", "fallback_lagging", "primary_recovered", "fallback_before_primary", "primary_closed"]
+EXPECT_PROBES = ["battery_formula_variant", "fallback_started", "fallback_lagging", "primary_recovered", "fallback_before_primary", "primary_closed"]
 
 
 TAIL = 6
@@ -50,10 +50,12 @@ def scenario(sim: Sim) -> None:
     from frequenz.sdk.timeseries.formula_engine._formula_generators._pv_power_formula import PVPowerFormula
 
     ch = sim.ch
+    battery = ch.chance("battery_formula", 0.35)      # BatteryPowerFormula instead of PVPowerFormula
     nterms = 1 + ch.weighted("nterms", [3, 3, 1])
     comps = {Component(1, ComponentCategory.GRID), Component(2, ComponentCategory.METER)}
     conns = {Connection(1, 2)}
     terms: list[dict[str, Any]] = []
+    battery_ids: set[int] = set()
     for j in range(nterms):
         m = 10 * (j + 1)
         ninv = 1 + ch.draw("ninv", 2)
@@ -61,13 +63,23 @@ def scenario(sim: Sim) -> None:
         comps.add(Component(m, ComponentCategory.METER))
         conns.add(Connection(2, m))
         for i in invs:
-            comps.add(Component(i, ComponentCategory.INVERTER, InverterType.SOLAR))
+            comps.add(Component(i, ComponentCategory.INVERTER, InverterType.BATTERY if battery else InverterType.SOLAR))
             conns.add(Connection(m, i))
+            if battery:
+                comps.add(Component(i + 4, ComponentCategory.BATTERY))
+                conns.add(Connection(i, i + 4))
+                battery_ids.add(i + 4)
         terms.append({"primary": m, "fallback": invs})
     bare = ch.chance("bare_inverter", 0.2)
     if bare:
-        comps.add(Component(90, ComponentCategory.INVERTER, InverterType.SOLAR))
+        comps.add(Component(90, ComponentCategory.INVERTER, InverterType.BATTERY if battery else InverterType.SOLAR))
         conns.add(Connection(2, 90))
+        if battery:
+            comps.add(Component(94, ComponentCategory.BATTERY))
+            conns.add(Connection(90, 94))
+            battery_ids.add(94)
+    if battery:
+        sim.probe("battery_formula_variant")
     api = fakes.FakeMicrogridApi(sim, comps, conns)
     fakes.install_connection_manager(api)
 
@@ -87,7 +99,7 @@ def scenario(sim: Sim) -> None:
         close = (terms[ch.draw("close_term", nterms)]["primary"], ch.draw("close_round", rounds))
     fb_none_rate = ch.choice("fb_none_rate", [0.0, 0.0, 0.04])
     lag = {i: ch.weighted("fb_lag", [4, 2, 1]) for t in terms for i in t["fallback"]}
-    sim.config.update(terms=terms, bare=bare, rounds=rounds, close=close, lag={str(k): x for k, x in lag.items()})
+    sim.config.update(generator="battery" if battery else "pv", terms=terms, bare=bare, rounds=rounds, close=close, lag={str(k): x for k, x in lag.items()})
     sim.loop.max_iters_no_advance = 4000
     sim.loop.max_steps = 60_000
     sim.set_cost_mode(ch.weighted("cost_mode", [3, 1]))
@@ -101,7 +113,12 @@ def scenario(sim: Sim) -> None:
         reg = ChannelRegistry(name="reg")
         sub: Broadcast[Any] = Broadcast(name="subscriptions")
         subrx = sub.new_receiver(limit=200)
-        gen = PVPowerFormula("ns", reg, sub.new_sender(), FormulaGeneratorConfig())
+        if battery:
+            from frequenz.sdk.timeseries.formula_engine._formula_generators._battery_power_formula import BatteryPowerFormula
+
+            gen: Any = BatteryPowerFormula("ns", reg, sub.new_sender(), FormulaGeneratorConfig(component_ids=battery_ids))
+        else:
+            gen = PVPowerFormula("ns", reg, sub.new_sender(), FormulaGeneratorConfig())
         eng = gen.generate()
         sim.note(f"formula {eng}")
         sim.ev("formula", str(eng))
